@@ -54,8 +54,19 @@ CallClause(t, c) ==
     ELSE IF c.kind \in {"dom_random", "dom_grid", "s_random", "s_grid", "s_gauss", "s_lhs", "s_adaptive", "s_adaptive_r"} /\ c.n > 0
             /\ c.count # c.n * (IF c.k = 0 THEN 1 ELSE c.k) THEN "wrong-number-of-points"
     ELSE "ok"
+\* a ball whose radius function is NEGATIVE at the parameter row: not a domain description (membership says empty, the
+\* measure formulas say pi r^2 > 0): such rows are outside the input universe of the property, also inside a combination
+RECURSIVE NegRadius(_, _)
+NegRadius(e, prm) ==
+    CASE e.k \in {"circle", "sphere"} -> Aff(e.r, EnvQ(e, prm, 0, 0)) < 0
+      [] e.k \in {"union", "cut", "and", "prod"} -> NegRadius(e.l, prm) \/ NegRadius(e.r, prm)
+      [] e.k \in {"trans", "rot", "bd"} -> NegRadius(e.d, prm)
+      [] OTHER -> FALSE
 \* a call is judged only if the expression has positive measure at every parameter row of the call
-Judgeable(t, c) == IF c.prm = <<>> THEN Positive(E(t), <<>>, c.filter) ELSE \A i \in DOMAIN c.prm : Positive(E(t), c.prm[i], c.filter)
+Judgeable(t, c) == IF c.prm = <<>> THEN Positive(E(t), <<>>, c.filter) /\ ~NegRadius(E(t), <<>>)
+                   ELSE /\ \A i \in DOMAIN c.prm : Positive(E(t), c.prm[i], c.filter) /\ ~NegRadius(E(t), c.prm[i])
+                        \* (adaptive samplers: also the parameter rows of the call in between are inside the universe)
+                        /\ "prm2" \in DOMAIN c => \A i \in DOMAIN c.prm2 : ~NegRadius(E(t), c.prm2[i])
 \* acknowledged deviations, identified by call site
 \* "bool_bd_shared_piece": every offending boundary sample lies (within Tol) on the own boundaries of at least TWO
 \* primitive operands, i.e. on a shared boundary piece that the Boolean boundary formulas keep although it is
